@@ -2114,7 +2114,7 @@ void NiTriStripsData::notifyVerticesDelete(const std::vector<uint16_t>& vertIndi
 	NiTriBasedGeomData::notifyVerticesDelete(vertIndices);
 
 	// This is not a healthy way to delete strip data. Probably need to restrip the shape.
-	for (uint16_t i = 0; i < stripsInfo.stripLengths.size(); i++) {
+	for (uint16_t i = 0; i < stripsInfo.stripLengths.size() && i < stripsInfo.points.size(); i++) {
 		for (uint16_t j = 0; j < stripsInfo.stripLengths[i]; j++) {
 			if (indexCollapse[stripsInfo.points[i][j]] == -1) {
 				stripsInfo.points[i].erase(stripsInfo.points[i].begin() + j);
